@@ -6,7 +6,7 @@
 # 3. the existing suite (minus the baseline's known always-timing-out test) passes with the patch
 # Writes <dir>/confirm.json and <dir>/confirm.log.  Uses a scratch worktree, never /repo itself.
 D=$(cd "$1" && pwd); WT=${2:-/tmp/wt-confirm}
-export CARGO_TARGET_DIR=/tmp/confirm-target CARGO_NET_OFFLINE=true CARGO_PROFILE_DEV_DEBUG=0 CARGO_PROFILE_TEST_DEBUG=0
+export CARGO_TARGET_DIR=${CONFIRM_TARGET:-/tmp/confirm-target} CARGO_NET_OFFLINE=true CARGO_PROFILE_DEV_DEBUG=0 CARGO_PROFILE_TEST_DEBUG=0
 LOG=$D/confirm.log; : > "$LOG"
 HEAD=$(git -C /repo rev-parse HEAD)
 if [ ! -d "$WT" ]; then git -C /repo worktree add --detach "$WT" HEAD -q >>"$LOG" 2>&1; fi
